@@ -878,10 +878,15 @@ class UltrasphericalHelper(ChebychevHelper):
             Integration constant, has one less dimension than `u_hat`
         """
         slices = [
-            None,
+            slice(None),
         ] * u_hat.ndim
         slices[axis] = slice(1, u_hat.shape[axis])
-        return self.xp.sum(u_hat[(*slices,)] * (-1) ** (self.xp.arange(u_hat.shape[axis] - 1)), axis=axis)
+        expansion = [
+            None,
+        ] * u_hat.ndim
+        expansion[axis] = slice(None)
+        signs = (-1) ** (self.xp.arange(u_hat.shape[axis] - 1))
+        return self.xp.sum(u_hat[(*slices,)] * signs[(*expansion,)], axis=axis)
 
 
 class FFTHelper(SpectralHelper1D):
